@@ -269,6 +269,9 @@ func scenariosFor(prop string) []scn {
 		// a provisioning apply that changes two processors in place, the second one's new configuration cannot be opened:
 		// the first one must be back on its previous configuration afterwards
 		v1(flowParams{Sources: 1, Records: 3, Batch: 1, Dests: 1, AckMenu: onlyOK, Procs: []procParam{{ID: "pp"}, {ID: "pq"}}, Apply: []string{"twoprocs"}, ProcOpenMenu: []string{"ok", "err"}}, 2, 3)
+		// a processor-only edit whose new configuration cannot even be built (its plugin cannot be dispensed): the old one keeps
+		// running, nothing of the edit stays stored
+		v1(flowParams{Sources: 1, Records: 3, Batch: 1, Dests: 1, AckMenu: onlyOK, Procs: pp, Apply: []string{"procbad"}, ProcOpenMenu: []string{"ok"}}, 2, 3)
 		// the run is force-stopped (or fails) while the new processor is still inside Open, which then succeeds or fails
 		v1(flowParams{Sources: 1, Records: 2, Batch: 1, Dests: 1, AckMenu: onlyOK, Procs: pp, Reconf: []string{"A"}, ProcOpenMenu: []string{"ok", "err"}, Stop: "force"}, 2, 3)
 		v1(flowParams{Sources: 1, Records: 2, Batch: 1, Dests: 1, AckMenu: []string{"ok", "err"}, Procs: pp, Reconf: []string{"A"}, ProcOpenMenu: []string{"ok", "err"}}, 2, 3)
@@ -283,6 +286,9 @@ func scenariosFor(prop string) []scn {
 		both(flowParams{Sources: 1, Records: 2, Batch: 1, Dests: 1, AckMenu: onlyOK, Procs: pp, Apply: []string{"proc+stale"}}, 2, 3)
 		both(flowParams{Sources: 1, Records: 2, Batch: 1, Dests: 1, AckMenu: onlyOK, Procs: pp, Apply: []string{"conn+noauth"}}, 2, 3)
 		both(flowParams{Sources: 1, Records: 2, Batch: 1, Dests: 1, AckMenu: onlyOK, Procs: pp, Apply: []string{"proc", "||conn"}}, 2, 3)
+		v1(flowParams{Sources: 1, Records: 3, Batch: 1, Dests: 1, AckMenu: onlyOK, Procs: pp, Apply: []string{"procbad"}, ProcOpenMenu: []string{"ok"}}, 2, 3)
+		// only the nack threshold of the dead-letter queue changes: not a processor-only change, the pipeline is drained and restarted
+		both(flowParams{Sources: 1, Records: 3, Batch: 1, Dests: 1, AckMenu: onlyOK, Window: 3, Thresh: 1, Procs: pp, Apply: []string{"dlqthresh"}}, 2, 3)
 		// a restart-class apply whose restart fails (the second source cannot be opened): cleanly stopped, and it can be
 		// started again
 		both(flowParams{Sources: 2, Records: 2, Batch: 1, Dests: 1, AckMenu: onlyOK, Procs: pp, Apply: []string{"conn"}, GateSrcOpen: []string{"s1"}, Ctl: []string{"start", "stopwait"}}, 1, 2)
